@@ -172,6 +172,7 @@ def _recursive_with_ad(case, failure):
 
 
 KNOWN_CLASSES = {
+    "keep_all_body_disjunction": lambda case, failure: any(s[0] == "rule_or" for s in case["prog"]),
     "cyclic_or_complement": lambda case, failure: gp.cyclic_body_disjunction_with_complement(case["prog"]),
     "recursive_with_ad": _recursive_with_ad,
     "negcycle_fp": lambda case, failure: gp.neg_on_cyclic_goal_under_active_cycle(case["prog"]),
